@@ -9,6 +9,7 @@ BASE = json.load(open("/root/.vp/BASELINE.json")) if os.path.exists("/root/.vp/B
 # id -> (category, technique, level text, level note, design ref)
 CHECKS = {}
 NOT_APPLICABLE = {}
+ADDENDA = {}
 exec(open(os.path.join(HERE, "tools", "manifest_table.py")).read())
 
 props = [json.loads(l) for l in open(os.path.join(HERE, "properties.jsonl"))]
@@ -18,6 +19,8 @@ for p in props:
     if pid not in CHECKS:
         continue
     cat, tech, text, note, ref = CHECKS[pid]
+    if pid in ADDENDA:
+        text = text + " " + ADDENDA[pid]
     checks.append({
         "property_id": pid,
         "quick_cmd": f"./check {pid} quick",
